@@ -17,7 +17,7 @@ PROPERTY = 'C04'
 RULE = ('Typed grammar restricted to the dense-time operators (arithmetic, comparisons, Boolean, once/historically/eventually/always/'
         'since/until bounded and unbounded) x piecewise-constant signals on a rational grid (quantum 1/4; thorough also 1/8, 1/2), '
         'break-points of different variables drawn independently (unaligned), 1-8 samples per variable; lanes main (t0=0), shifted '
-        '(t0>0, no variable-free predicate), long (bounds up to 24 cells, longer than the signals), arith. Oracle: grid reference R-ct; '
+        '(t0>0, no variable-free predicate), long (bounds up to 24 cells, longer than the signals), arith, staircase (5-12 samples in long monotone runs under windows up to 16 cells), big (8-20 samples, three variables) and units (bounds with explicit units / the case restated in another default unit, machinery of C08). Oracle: grid reference R-ct; '
         'the returned sample list must have non-decreasing finite time stamps, start at t0 and, read as a right-continuous step '
         'function, equal R-ct at every cell start, cell midpoint and output time stamp of [t0, earliest last sample]. '
         'Non-trivial = >=1 temporal operator and (>=2 variables with unaligned break-points or a bounded operator); '
